@@ -46,8 +46,8 @@ def gen(rng, tier):
         focus["density"] = 0.5
     spec = C.forward_spec(rng, tier, focus)
     mode = G.wchoice(rng, [("perm", 6), ("plain", 1.5), ("again", 1.5), ("history", 1.5), ("ids", 1.2)])
-    if mode == "ids" and (spec["profile"].get("same_ids") or any(t.get("fixw") is not None or t.get("fixf") is not None for t in spec["model"]["tasks"])):
-        mode = "perm"  # fixed-ID lists name resource IDs: not meaningful with default IDs
+    if mode == "ids" and (spec["profile"].get("same_ids") or spec["profile"].get("prefix_ids")):
+        mode = "perm"
     spec["mode"] = mode
     n = len(spec["model"]["tasks"])
     if mode == "perm":
@@ -79,193 +79,6 @@ def gen(rng, tier):
                 {"op": "backward_defaults", "p": rng.randint(0, 1)},
                 {"op": "refused_call", "p": rng.randint(0, 1), "backward": rng.random() < 0.6},
                 {"op": "getters", "p": rng.randint(0, 1)},
-            ]))
-        spec["ops"] = ops
-    return spec
-
-
-def globals_digest():
-    """Digest of process-global mutable state of pDESy that a simulation could leave behind."""
-    M = env.M
-    items = []
-    for fn in (M.bp.BaseProject.simulate, M.bp.BaseProject.backward_simulate, M.bp.BaseProject.__init__,
-               M.bt.BaseTask.__init__, M.bw.BaseWorker.__init__, M.bf.BaseFacility.__init__,
-               M.bc.BaseComponent.__init__, M.btm.BaseTeam.__init__, M.bwp.BaseWorkplace.__init__):
-        items.append((fn.__qualname__, repr(fn.__defaults__)))
-    for m in M.modules:
-        for k, v in sorted(vars(m).items()):
-            if k.startswith("__"):
-                continue
-            if isinstance(v, (list, dict, set)):
-                items.append((m.__name__ + "." + k, repr(v)))
-    return hashlib.sha256(repr(items).encode()).hexdigest()[:16]
-
-
-def reset_globals_old():
-    """Restore the mutable default arguments a previous scenario may have polluted (isolation between runs)."""
-    M = env.M
-    for fn in (M.bp.BaseProject.simulate, M.bp.BaseProject.backward_simulate):
-        d = fn.__defaults__
-        if d and any(isinstance(x, list) and x for x in d):
-            fn.__defaults__ = tuple([] if isinstance(x, list) else x for x in d)
-
-
-def edge_tags(model):
-    ks = sorted(set(G.KIND_NAME[k] for (_, _, k) in model["deps"]))
-    return "+".join(ks) if ks else "nodep"
-
-
-def canon(obj, mapping):
-    """Rename IDs (dict keys and string values) according to mapping."""
-    if isinstance(obj, dict):
-        return {mapping.get(k, k): canon(v, mapping) for k, v in obj.items()}
-    if isinstance(obj, list):
-        return [canon(v, mapping) for v in obj]
-    if isinstance(obj, str):
-        return mapping.get(obj, obj)
-    return obj
-
-
-def one_run(spec, ranks, cfg=None, plain=False):
-    scen.setup_run(spec.get("seed", 0))
-    if plain:
-        b = B.build(spec["model"], None, plain=True)
-        rec, out = scen.simulate(b.project, cfg or spec["cfg"], want_snap=False)
-        tr = scen.Trace()
-        tr.project, tr.rec, tr.out, tr.ix = b.project, rec, out, rec.ix
-        tr.built = b
-        return tr
-    return scen.run_forward(spec["model"], ranks, cfg or spec["cfg"], want_snap=False)
-
-
-def outcome_dump(tr):
-    d = D.dump(tr.project)
-    d["_outcome"] = [tr.out.ok, tr.out.exc_type, tr.out.where]
-    return d
-
-
-def run(spec):
-    env.setup()
-    seams.install()
-    seams.reset_global_defaults()
-    res = C.campaign.Result()
-    res.count("runs")
-    mode = spec.get("mode", "perm")
-    res.count("mode_" + mode)
-    m = spec["model"]
-    tags = edge_tags(m)
-    ref = one_run(spec, spec.get("ranks"))
-    res.steps = ref.rec.n_recorded
-    # a run leaves no hidden state behind: the model itself (every user-built list in its order, every map, every setting)
-    # is after the run what a fresh build of the same model is
-    fresh = B.build(m, spec.get("ranks"))
-    s_fresh = D.structure_dump(fresh.project)
-
-    def model_intact(project, when):
-        diff_ = D.first_diff(s_fresh, D.structure_dump(project))
-        res.count("model_structure_compared")
-        if diff_ is not None:
-            attr = [x for x in diff_[0].strip("/").split("/") if not x.startswith("[")]
-            res.add("model", "C09.run_changed_the_model.%s" % ".".join(a_.split("[")[0] for a_ in (attr[0:1] + attr[2:3])),
-                    "%s the model differs from a fresh build of the same model at %s: %r vs %r" % (when, diff_[0], diff_[1], diff_[2]), None)
-
-    if ref.out.ok:
-        model_intact(ref.project, "after simulate()")
-    dref = outcome_dump(ref)
-    res.digest = D.digest(dref)
-    compared = 0
-    if ref.out.ok and any(w.get("mainwp") for tm in m["teams"] for w in tm["workers"]):
-        # ID strings that are the same object (main_workplace_id=wp.ID) vs equal copies (IDs read from a file): same result
-        scen.setup_run(spec.get("seed", 0))
-        b2 = B.build(m, spec.get("ranks"), share_id_objects=True)
-        rec2, out2 = scen.simulate(b2.project, spec["cfg"], want_snap=False)
-        d2 = D.dump(b2.project)
-        d2["_outcome"] = [out2.ok, out2.exc_type, out2.where]
-        res.count("id_object_twin_compared")
-        diff = D.first_diff(dref, d2)
-        if diff is not None:
-            res.add("address", "C09.depends_on_id_string_identity",
-                    "the same model with main_workplace_id being the workplace's ID object vs an equal copy of it differs at %s: %r vs %r" % diff, None)
-    if mode == "perm":
-        perms = spec.get("perms")
-        if perms == "all":
-            ids_t = [t["id"] for t in m["tasks"]]
-            ids_c = [c["id"] for c in m.get("comps", [])]
-            perms = []
-            for pt in itertools.permutations(range(len(ids_t))):
-                r = dict(zip(ids_t, pt))
-                for i, c in enumerate(ids_c):
-                    r[c] = i
-                perms.append(r)
-            for pc in itertools.permutations(range(len(ids_c))):
-                r = {t: i for i, t in enumerate(ids_t)}
-                r.update(dict(zip(ids_c, pc)))
-                perms.append(r)
-            res.count("exhaustive_schedule_sets")
-        for r in perms:
-            tr = one_run(spec, r)
-            compared += 1
-            d = outcome_dump(tr)
-            diff = D.first_diff(dref, d)
-            if diff is not None:
-                attrs = D.diff_attrs(dref, d)
-                res.add("schedule", "C09.schedule_dependent.kinds_" + tags,
-                        "same model, two set-iteration schedules %s vs %s: results differ in %s; first at %s: %r vs %r"
-                        % (spec.get("ranks"), r, sorted(attrs)[:6], diff[0], diff[1], diff[2]), None)
-                break
-        res.count("schedules_compared", compared)
-    elif mode == "ids":
-        # workers and facilities get the library's default IDs (uuid4).  Two builds draw different IDs; after renaming the
-        # IDs by position the results must be identical (a result must not depend on what the random IDs happen to be)
-        dumps = []
-        for sd in spec.get("id_seeds", [1, 2]):
-            scen.setup_run(spec.get("seed", 0))
-            seams.UUID.reset(random_seed=sd)
-            b = B.build(m, spec.get("ranks"), default_resource_ids=True)
-            rec, out = scen.simulate(b.project, spec["cfg"], want_snap=False)
-            mapping = {}
-            for w, wid in zip(b.workers, [w_["id"] for tm in m["teams"] for w_ in tm["workers"]]):
-                mapping[w.ID] = wid
-            for f, fid in zip(b.facs, [f_["id"] for wp in m["wps"] for f_ in wp["facs"]]):
-                mapping[f.ID] = fid
-            d = canon(D.dump(b.project), mapping)
-            d["_outcome"] = [out.ok, out.exc_type, out.where]
-            dumps.append(d)
-            compared += 1
-        seams.UUID.reset()
-        for d in dumps:
-            diff = D.first_diff(dref, d)
-            if diff is not None:
-                res.add("ids", "C09.depends_on_default_ids", "the same model built with default (uuid4) worker/facility IDs gives a result that "
-                        "differs from the run with explicit IDs after renaming IDs by position, at %s: %r vs %r" % diff, None)
-                break
-    elif mode == "plain":
-        junk = [bytearray(n) for n in spec.get("garbage", [])]
-        tr = one_run(spec, None, plain=True)
-        compared += 1
-        d = outcome_dump(tr)
-        diff = D.first_diff(dref, d)
-        if diff is not None:
-            res.add("address", "C09.address_dependent.kinds_" + tags,
-                    "ranked run vs unmodified classes rebuilt at other addresses differ at %s: %r vs %r" % diff, None)
-        del junk
-    elif mode == "again":
-        p = spec["profile"]
-        spec["cfgB"] = G.gen_cfg(rng, p)
-        spec["pre_again"] = rng.choice([None, "initialize", "pert0", "sim0", "workflow_initialize"])
-    else:
-        p = spec["profile"]
-        spec["model2"] = G.gen_model(rng, G.gen_profile(rng))
-        spec["cfg2"] = G.gen_cfg(rng, p)
-        ops = []
-        for _ in range(rng.randint(2, 6)):
-            ops.append(rng.choice([
-                {"op": "sim_defaults", "p": rng.randint(0, 1)},
-                {"op": "sim", "p": rng.randint(0, 1)},
-                {"op": "insert", "p": rng.randint(0, 1), "steps": sorted(set(rng.randint(1, 6) for _ in range(rng.randint(1, 3))))},
-                {"op": "remove", "p": rng.randint(0, 1)},
-                {"op": "backward", "p": rng.randint(0, 1), "due": rng.random() < 0.5, "reverse": rng.random() < 0.5},
-                {"op": "backward_defaults", "p": rng.randint(0, 1)},
             ]))
         spec["ops"] = ops
     return spec
